@@ -1,6 +1,7 @@
 package graphql
 
 import (
+	"github.com/graphql-go/graphql/verifhook"
 	"github.com/graphql-go/graphql/gqlerrors"
 	"github.com/graphql-go/graphql/language/ast"
 	"github.com/graphql-go/graphql/language/kinds"
@@ -146,6 +147,7 @@ func (ctx *ValidationContext) Fragment(name string) *ast.FragmentDefinition {
 	return f
 }
 func (ctx *ValidationContext) FragmentSpreads(node *ast.SelectionSet) []*ast.FragmentSpread {
+	verifhook.Count(verifhook.ValidatorFragmentSpreads)
 	if spreads, ok := ctx.fragmentSpreads[node]; ok && spreads != nil {
 		return spreads
 	}
@@ -220,6 +222,7 @@ func (ctx *ValidationContext) RecursivelyReferencedFragments(operation *ast.Oper
 	return fragments
 }
 func (ctx *ValidationContext) VariableUsages(node HasSelectionSet) []*VariableUsage {
+	verifhook.Count(verifhook.ValidatorVariableUsages)
 	if usages, ok := ctx.variableUsages[node]; ok && usages != nil {
 		return usages
 	}
